@@ -35,3 +35,137 @@ def indexing(n, m, rpc, rk, ck, level="1.5"):
         return {"reproduced": not same, "detail": f"got shape {np.shape(got)}, want {np.shape(want)}"}
 
     return with_product(run, level=level, n=n, p=m, pols=("HH",))
+
+
+def tree_diff(a, b):
+    """-> list of differences between two DataTrees (structure, dims, dtypes, coords, attrs, values, encodings aside)"""
+    import xarray as xr
+
+    diffs = []
+    pa = {n.path: n for n in a.subtree}
+    pb = {n.path: n for n in b.subtree}
+    if list(pa) != list(pb):
+        diffs.append(f"node paths differ: {list(pa)} vs {list(pb)}")
+    for p in pa:
+        if p not in pb:
+            continue
+        da, db = pa[p].to_dataset(), pb[p].to_dataset()
+        if list(da.variables) != list(db.variables):
+            diffs.append(f"{p}: variables {list(da.variables)} vs {list(db.variables)}")
+            continue
+        if set(da.coords) != set(db.coords):
+            diffs.append(f"{p}: coords differ")
+        if not _attrs_equal(da.attrs, db.attrs):
+            diffs.append(f"{p}: attrs differ: {da.attrs} vs {db.attrs}")
+        for name in da.variables:
+            va, vb = da.variables[name], db.variables[name]
+            if va.dims != vb.dims or va.shape != vb.shape:
+                diffs.append(f"{p}/{name}: dims/shape {va.dims}{va.shape} vs {vb.dims}{vb.shape}")
+                continue
+            if np.dtype(va.dtype).newbyteorder("=") != np.dtype(vb.dtype).newbyteorder("="):
+                diffs.append(f"{p}/{name}: dtype {va.dtype} vs {vb.dtype}")
+            if not _attrs_equal(va.attrs, vb.attrs):
+                diffs.append(f"{p}/{name}: attrs differ")
+            try:
+                xa, xb = np.asarray(va.values), np.asarray(vb.values)
+                if xa.dtype.kind == "O" or xb.dtype.kind == "O":
+                    same = xa.tolist() == xb.tolist()
+                else:
+                    same = np.array_equal(xa, xb, equal_nan=xa.dtype.kind in "fc")
+                if not same:
+                    diffs.append(f"{p}/{name}: values differ")
+            except Exception as e:  # noqa: BLE001
+                diffs.append(f"{p}/{name}: loading raised {type(e).__name__}: {e}")
+    return diffs
+
+
+def _attrs_equal(a, b):
+    if list(a) != list(b):
+        return False
+    for k in a:
+        x, y = a[k], b[k]
+        try:
+            if isinstance(x, float) and isinstance(y, float) and x != x and y != y:
+                continue
+            if isinstance(x, np.ndarray) or isinstance(y, np.ndarray):
+                if not np.array_equal(np.asarray(x), np.asarray(y)):
+                    return False
+                continue
+            if x != y or type(x) is not type(y):
+                return False
+        except Exception:  # noqa: BLE001
+            return False
+    return True
+
+
+def cache_transparency(protocol="file", level="1.5", rpc_w=2, rpc_r=3, producer="option", location="local", n=5, p=4):
+    """write a cache with `producer` (option create_cache=True | cli), then compare use_cache=True with use_cache=False"""
+    import fsspec
+
+    import ceos_alos2
+    from vlib import synth
+
+    root = tempfile.mkdtemp(prefix="vcache_")
+    os.environ["XDG_CACHE_HOME"] = os.path.join(root, "_xdg")
+    import platformdirs
+
+    from ceos_alos2.sar_image.caching import path as cpath
+
+    cpath.cache_root = platformdirs.user_cache_path(cpath.project_name)
+    try:
+        if protocol == "memory":
+            fs = fsspec.filesystem("memory")
+            base = f"/vprod_{os.path.basename(root)}"
+
+            def write(name, data):
+                fs.pipe_file(f"{base}/{name}", data)
+
+            url = f"memory://{base}"
+        else:
+            base = os.path.join(root, "prod")
+            write = synth.dir_writer(base)
+            url = base if protocol == "file" else f"file://{base}"
+        datas = synth.product(write, level, n=n, p=p, pols=("HH", "HV"))
+        out = {"url": url}
+        if producer == "option":
+            ceos_alos2.open_alos2(url, backend_options={"use_cache": False, "create_cache": True, "records_per_chunk": rpc_w})
+        else:
+            import pathlib
+
+            from ceos_alos2.sar_image import cli
+
+            for name in datas:
+                cli.create_cache(pathlib.Path(base) / name, None, rpc_w)
+        if location == "adjacent" and producer == "option":
+            # move the user-cache files next to the images
+            import glob
+
+            for f in glob.glob(os.path.join(cpath.cache_root, "*", "*.index")):
+                if protocol == "memory":
+                    fs.pipe_file(f"{base}/{os.path.basename(f)}", open(f, "rb").read())
+                    os.remove(f)
+                else:
+                    shutil.move(f, os.path.join(base, os.path.basename(f)))
+        cached = ceos_alos2.open_alos2(url, backend_options={"use_cache": True, "records_per_chunk": rpc_r})
+        plain = ceos_alos2.open_alos2(url, backend_options={"use_cache": False, "records_per_chunk": rpc_r})
+        diffs = tree_diff(plain, cached)
+        enc = [cached[f"imagery/{pol}/data"].encoding == plain[f"imagery/{pol}/data"].encoding for pol in ("HH", "HV")]
+        if not all(enc):
+            diffs.append("encoding (preferred chunks) differs between cached and uncached open")
+        for name, d in datas.items():
+            pol = name.split("-")[1]
+            if not np.array_equal(cached[f"imagery/{pol}/data"].values, d):
+                diffs.append(f"cached pixels of {pol} differ from the synthesised samples")
+        out.update(reproduced=bool(diffs), diffs=diffs[:6])
+        return out
+    except Exception as e:  # noqa: BLE001
+        import traceback
+
+        return {"reproduced": True, "error": f"{type(e).__name__}: {e}", "tb": traceback.format_exc()[-600:]}
+    finally:
+        shutil.rmtree(root, ignore_errors=True)
+        if protocol == "memory":
+            try:
+                fs.rm(base, recursive=True)
+            except Exception:  # noqa: BLE001
+                pass
